@@ -10,6 +10,7 @@ CONSTANTS
   FaultSites = {}
   MaxCtx = 1
   MaxDepth = 5
+  ChainToggleChains = {"inline", "inline2"}
   Variant = "head"
 SPECIFICATION SpecP
 VIEW view
